@@ -13,6 +13,14 @@ inductive Res (α : Type) where
   | panic
 deriving Repr, DecidableEq
 
+def Res.isErr {α : Type} : Res α → Bool
+  | .err => true
+  | _ => false
+
+def Res.isPanic {α : Type} : Res α → Bool
+  | .panic => true
+  | _ => false
+
 /-! ### UTF-8 view -/
 
 /-- UTF-8 encoding of one scalar value (as bytes 0..255). -/
